@@ -30,7 +30,7 @@ ASSUMPTIONS = [
     "targets are plain NumPy arrays (setitem semantics of the reference target)",
     "return_stored=True with compute=False and load_stored=False is excluded: dask documents that computing it directly "
     "'is not what you want'",
-    "temporary stacks live under /var/tmp/arr3/c29-<pid>-<n> and are removed in a finally block",
+    "temporary stacks live under /var/tmp/vf-c29/c29-<pid>-<n> and are removed in a finally block",
 ]
 TECHNIQUE = "sentinel-filled targets inspected after the store; file round trip"
 
@@ -64,7 +64,8 @@ def store_check(spec):
     sig = dict(op="store", lock=spec["lock"], compute=comp, return_stored=rs, load_stored=spec.get("load_stored"), sched=spec["sched"], nsources=len(ds),
                region=any(r is not None for r in regions), strided=any(r is not None and any((s.step or 1) > 1 for s in r) for r in regions),
                zero_chunk=any(A.has_zero_chunk(s["chunks"]) for s in spec["sources"]),
-               # two equal sources (same name) going to equal-content targets with equal regions: see report (key collision)
+               # two equal sources (same name) going to distinct equal-content targets with equal regions: the store layers
+               # get the same name and collapse (finding store-equal-sources-distinct-targets)
                duplicate_pair=any(ds[i].name == ds[j].name and regions[i] == regions[j] and targets[i].shape == targets[j].shape and targets[i].dtype == targets[j].dtype
                                   for i in range(len(ds)) for j in range(i)))
     kw = dict(lock=lock, compute=comp, return_stored=rs)
@@ -168,8 +169,8 @@ def stack_check(spec):
     d = A.build_da(spec["array"], x)
     axis = spec["axis"]
     sig = dict(op="npy_stack", axis=axis, zero_chunk=A.has_zero_chunk(spec["array"]["chunks"]), dtype=spec["array"]["dtype"])
-    dirname = f"/var/tmp/arr3/c29-{os.getpid()}-{next(_counter)}"
-    os.makedirs("/var/tmp/arr3", exist_ok=True)
+    dirname = f"/var/tmp/vf-c29/c29-{os.getpid()}-{next(_counter)}"
+    os.makedirs("/var/tmp/vf-c29", exist_ok=True)
     try:
         with impl("npy_stack", **sig):
             da.to_npy_stack(dirname, d, axis=axis)
